@@ -49,6 +49,12 @@ func (r *RunnerManager) Add(runner ...Runner) error {
 	verifPoint("runner.add.checked")
 	r.lock.Lock()
 	defer r.lock.Unlock()
+	// Check again now that we hold the lock: Run takes its list of runners while
+	// holding it, and a runner added after that would be accepted but never run
+	// (and Run would wait for its result forever).
+	if r.running.Load() {
+		return ErrManagerAlreadyStarted
+	}
 	r.runners = append(r.runners, runner...)
 	return nil
 }
@@ -57,15 +63,19 @@ func (r *RunnerManager) Add(runner ...Runner) error {
 // runner returns, the RunnerManager will stop all other runners and return any
 // error.
 func (r *RunnerManager) Run(ctx context.Context) error {
+	r.lock.Lock()
 	if !r.running.CompareAndSwap(false, true) {
+		r.lock.Unlock()
 		return ErrManagerAlreadyStarted
 	}
+	runners := r.runners
+	r.lock.Unlock()
 
 	ctx, cancel := context.WithCancel(ctx)
 	defer cancel()
 
 	errCh := make(chan error)
-	for _, runner := range r.runners {
+	for _, runner := range runners {
 		go func(runner Runner) {
 			// Since the task returned, we need to cancel all other tasks.
 			// This is a noop if the parent context is already cancelled, or another
@@ -87,7 +97,7 @@ func (r *RunnerManager) Run(ctx context.Context) error {
 
 	// Collect all errors
 	errObjs := make([]error, 0)
-	for i := 0; i < len(r.runners); i++ {
+	for i := 0; i < len(runners); i++ {
 		err := <-errCh
 		if err != nil {
 			errObjs = append(errObjs, err)
